@@ -10,11 +10,12 @@ storage server, C22); repair itself is download (C02) followed by `upload` with 
 `VCfg.asIs` is the verifier as it was before the fix, `VCfg.repaired` the verifier as it is in /repo now (fix fb3513d =
 fixes/C45-verify-block-root.diff: the block hash tree root is taken from the validated share hash leaf).
 
-As built: 15 theorems (one `_partial`) — `verified_good_implies_all_valid` (+ `verified_good_counterexample` for the old verifier),
+As built: 17 theorems (one `_partial`) — `verified_good_implies_all_valid` (+ `verified_good_counterexample` for the old verifier),
 `healthy_iff_N_good`, `recoverable_iff_k_good`, `corrupt_shares_listed`, `noverify_believes_servers`,
 `recoverable_unhealthy_repair_attempted`, `repair_uses_original_parameters`, `repair_regenerates_identical_shares`,
 `post_repair_healthy_implies_N_good`, `repair_never_alters_good_shares`, `repair_output_is_encoder_output`,
-`repaired_share_passes_ct_stage`, `repaired_share_passes_block_hash_stage`, `readable_from_repaired_shares_partial`. Further model parts: `checkServerShares` /
+`repaired_share_passes_ct_stage`, `repaired_share_passes_block_hash_stage`, `repaired_share_passes_share_hash_stage`,
+`repaired_share_block_accepted`, `readable_from_repaired_shares_partial`. Further model parts: `checkServerShares` /
 `checkNoVerify`, `repairDecision`, `repairParams`, `gatherRepairResults`, `corruptLocators`. Driver lean/Drv/C45.lean
 (`veup`, `fmt`, `fmtlists`, `noverify`, `verify`, `repairdecision`, `repairparams`, `postrepair`, `repair`) ties each
 of them to the code. Only partially proved (monitor end to end): that the file can be read from the repaired shares alone. -/
@@ -26,7 +27,7 @@ of them to the code. Only partially proved (monitor end to end): that the file c
 | a check is healthy exactly when N distinct good shares are found | `healthy_iff_N_good` (+ the good list is duplicate-free and is exactly the share numbers some server's result lists) |
 | … recoverable exactly when at least k are | `recoverable_iff_k_good` |
 | repair using only the verify-cap produces shares that validate under the original read-cap | `repair_uses_original_parameters` (k, N from the cap, segment size from the VALIDATED UEB — seed C45-b) + `repair_regenerates_identical_shares` (a completed repair read re-publishes exactly the original cap, UEB, trees and blocks); neither uses the read key |
-| … so the file can be read from the repaired shares alone | PARTIAL: `repair_output_is_encoder_output` (repaired shares = the uploader's shares, parameters included), `repaired_share_passes_ct_stage` and `repaired_share_passes_block_hash_stage` (completeness of the crypttext-hash and block-hash stages for such shares, C35 `tryBody_complete`), `readable_from_repaired_shares_partial` (one share set; a read over it writes only a prefix of the file and `done` ⇒ the file). Missing links named there: completeness of the share-hash and data-block stages, decoding (`Tahoe.C36.immutable_any_k_blocks_decode_rs256`), termination (C03/C46); end to end this clause stays with the monitor (read from repaired shares only) |
+| … so the file can be read from the repaired shares alone | PARTIAL: `repair_output_is_encoder_output` (repaired shares = the uploader's shares, parameters included), `repaired_share_passes_share_hash_stage`, `repaired_share_passes_block_hash_stage`, `repaired_share_passes_ct_stage`, `repaired_share_block_accepted` (completeness of every validation stage of `Share._satisfy_*` for such shares: share hash chain, block hash tree, crypttext hash tree, data block; C35 `tryBody_complete`), `readable_from_repaired_shares_partial` (one share set; a read over it writes only a prefix of the file and `done` ⇒ the file). Missing links named there: composing the four stage theorems along one fetch (the invariant that every reachable node's trees are closed partial copies is proved for agreement — `NodeInv`, `TreeOK` — but closedness is carried as a hypothesis), decoding (`Tahoe.C36.immutable_any_k_blocks_decode_rs256`), termination (C03/C46); end to end this clause stays with the monitor (read from repaired shares only) |
 | … and it never alters existing good shares | `repair_never_alters_good_shares` (abstract storage behaviour; refinement by the storage server is C22) |
 | a recoverable, unhealthy file gets a repair attempt, whatever the number of servers holding the good shares (seed C45-d) | `recoverable_unhealthy_repair_attempted` |
 | the post-repair results describe the grid after the repair (seed C45-c) | `post_repair_healthy_implies_N_good` |
@@ -203,6 +204,36 @@ theorem repaired_share_passes_ct_stage (E : Env H) (cfg : Cfg) (prm : Params) (s
     unfold firstLeafNum; omega
   exact honest_ct_hashes_accepted S.strict pick segnum v nd hk hT hlen hag hcl hL hnew hhonest
 
+/-- **repaired_share_passes_share_hash_stage** (completeness direction, share hash tree): on a download node whose
+    share hash tree is a closed partial copy of the repairer's share hash tree, a share whose share hash chain — as
+    the dict `process_share_hashes` builds from it — consists of nodes of `Prep`'s tree on the uncle chain of leaf
+    `shnum` (leaf included, as `send_all_share_hash_trees` writes it) and covers that chain passes
+    `_satisfy_share_hash_tree` (C35 completeness via `honest_share_hashes_accepted`). -/
+theorem repaired_share_passes_share_hash_stage (E : Env H) (cfg : Cfg) (prm : Params) (ser : UEB H → Bytes)
+    (encode : Nat → Bytes → Nat → Bytes) (ct : Bytes) (sz : Sizes) (S : Setup E cfg prm ser encode ct sz)
+    (Prep : Published H) (hrep : Prep = upload E prm encode ser ct)
+    (pick : List Nat → Nat) (shnum : Nat) (v : View H) (nd : Node H) (hsh : shnum < prm.n)
+    (hlen : nd.shareTree.length = Prep.shareT.length)
+    (hag : Agree nd.shareTree Prep.shareT) (hcl : Closed nd.shareTree)
+    (hgen : ∀ i w, (i, w) ∈ dictOf v.shareHashes → Base.Merkle.get Prep.shareT i = some w)
+    (hkeys : ∀ i w, (i, w) ∈ dictOf v.shareHashes →
+      i ∈ neededFor (firstLeafNum prm.n + shnum) ∨ i = firstLeafNum prm.n + shnum)
+    (hcov : ∀ i ∈ neededFor (firstLeafNum prm.n + shnum), ∃ w, (i, w) ∈ dictOf v.shareHashes)
+    (hleaf : ∃ w, (firstLeafNum prm.n + shnum, w) ∈ dictOf v.shareHashes) :
+    (stageShareTree E cfg pick Prep.cap shnum v nd).1 = none := by
+  subst hrep
+  have hT : Genuine E.ops (upload E prm encode ser ct).shareT := build_genuine E.ops _
+  have hn : (upload E prm encode ser ct).cap.n = prm.n := rfl
+  have hL : firstLeafNum (upload E prm encode ser ct).cap.n + shnum < nd.shareTree.length := by
+    rw [hn, hlen, upload_shareT, Integrity.build_length]
+    have hl : (shareLeaves E prm encode ct).length = prm.n := by simp [shareLeaves]
+    rw [hl]
+    have := roundupPow2_ge prm.n
+    have := roundupPow2_pos prm.n
+    unfold firstLeafNum; omega
+  exact honest_share_hashes_accepted S.strict pick _ shnum v nd hT hlen hag hcl hL
+    hgen hkeys hcov hleaf
+
 /-- **repaired_share_passes_block_hash_stage** (completeness direction, block hash tree of one share): on a download
     node that has accepted the UEB, whose block hash tree for share `shnum` is a closed partial copy of the tree the
     repairer published for that share and does not hold the leaf of `segnum` yet, a share that answers every
@@ -231,15 +262,57 @@ theorem repaired_share_passes_block_hash_stage (E : Env H) (cfg : Cfg) (prm : Pa
     unfold firstLeafNum; omega
   exact honest_block_hashes_accepted S.strict pick shnum segnum v nd hk hT hlen hag hcl hL hnew hhonest
 
+/-- **repaired_share_block_accepted** (completeness direction, data block): on a download node that has accepted the
+    UEB, whose block hash tree for share `shnum` is a closed partial copy of the repairer's tree for that share and
+    already holds the uncle chain of segment `segnum` (the block-hash stage has run:
+    `repaired_share_passes_block_hash_stage`), the block the repairer wrote for that segment — which is the uploader's
+    block (`repair_output_is_encoder_output`) — passes `_satisfy_data_block` / `check_block` and is handed to the
+    fetcher, provided the encoder produced a block of the size the UEB implies (C01 `Sizes`). -/
+theorem repaired_share_block_accepted (E : Env H) (cfg : Cfg) (prm : Params) (ser : UEB H → Bytes)
+    (encode : Nat → Bytes → Nat → Bytes) (ct : Bytes) (sz : Sizes) (S : Setup E cfg prm ser encode ct sz)
+    (Prep : Published H) (hrep : Prep = upload E prm encode ser ct)
+    (pick : List Nat → Nat) (shnum segnum : Nat) (v : View H) (nd : Node H) (u : UEB H)
+    (hk : nd.known = some (u, sz))
+    (hlen : (nd.blockTree shnum sz.numSegs).length = (Prep.blockT shnum).length)
+    (hag : Agree (nd.blockTree shnum sz.numSegs) (Prep.blockT shnum)) (hcl : Closed (nd.blockTree shnum sz.numSegs))
+    (hseg : segnum < sz.numSegs)
+    (hfull : ∀ i ∈ neededFor (firstLeafNum sz.numSegs + segnum),
+      Base.Merkle.get (nd.blockTree shnum sz.numSegs) i ≠ none)
+    (hblock : v.block = Prep.block shnum segnum)
+    (hsize : ¬ (v.block.isEmpty ∨
+      v.block.length ≠ (if segnum + 1 = sz.numSegs then sz.tailBlockSize else sz.blockSize))) :
+    (stageData E cfg pick shnum segnum v nd).1 = some (.block (Prep.block shnum segnum)) := by
+  subst hrep
+  have hT : Genuine E.ops ((upload E prm encode ser ct).blockT shnum) := build_genuine E.ops _
+  have hbl : (blockLeaves E prm encode ct shnum).length = sz.numSegs := by
+    rw [calcSizes_numSegs S.sizes]; simp [blockLeaves, segments]
+  have hL : firstLeafNum sz.numSegs + segnum < (nd.blockTree shnum sz.numSegs).length := by
+    rw [hlen, upload_blockT, Integrity.build_length, hbl]
+    have := roundupPow2_ge sz.numSegs
+    have := roundupPow2_pos sz.numSegs
+    unfold firstLeafNum; omega
+  have hleaf : Base.Merkle.get ((upload E prm encode ser ct).blockT shnum) (firstLeafNum sz.numSegs + segnum)
+      = some (E.tagged .block v.block) := by
+    have := build_leaf E.ops (blockLeaves E prm encode ct shnum) segnum (by rw [hbl]; exact hseg)
+    rw [hbl] at this
+    rw [upload_blockT, this, hblock]
+    have hs : segnum < (segments ct prm.segSize).length := by
+      have : (blockLeaves E prm encode ct shnum).length = (segments ct prm.segSize).length := by simp [blockLeaves]
+      omega
+    simp [blockLeaves, List.getElem?_map, List.getElem?_range hs, upload]
+  rw [← hblock]
+  exact honest_block_accepted S.strict pick shnum segnum v nd hk hT hlen hag hcl hL hfull hsize hleaf
+
 /-- **readable_from_repaired_shares_partial**.  Full statement (NOT proved): after a repair that reports success,
     every read that is offered any k distinct shares out of the old and the repaired ones ends `done` with the
     file's bytes.  Proved here: (1) old and repaired shares are one share set of the original publication
     (`repair_output_is_encoder_output`), so every block / hash a repaired share holds is the uploader's; (2) whatever
     such a read writes is a prefix of the requested range and a read that ends `done` wrote exactly the file
     (C02 `read_prefix_correct`, for arbitrary answers, hence also for repaired shares).  Missing links, each a
-    theorem elsewhere that is not yet instantiated on this model: acceptance of honest shares by the share-hash
-    and data-block stages (the same C35 `tryBody_complete` argument as `repaired_share_passes_ct_stage` and
-    `repaired_share_passes_block_hash_stage`, plus the leaf checks); decoding of any k genuine blocks (`Tahoe.C36.immutable_any_k_blocks_decode_rs256`,
+    theorem elsewhere that is not yet instantiated on this model: chaining the four per-stage acceptance theorems
+    (`repaired_share_passes_share_hash_stage`, `repaired_share_passes_block_hash_stage`,
+    `repaired_share_passes_ct_stage`, `repaired_share_block_accepted`) along one fetch, which needs closedness of the
+    node's trees as an invariant of every reachable node (agreement with the published trees already is one); decoding of any k genuine blocks (`Tahoe.C36.immutable_any_k_blocks_decode_rs256`,
     `rs256_mds`, for `decode` := zfec); termination with k good shares (C03 / C46). -/
 theorem readable_from_repaired_shares_partial (E : Env H) (cfg : Cfg) (prm : Params) (ser : UEB H → Bytes)
     (encode : Nat → Bytes → Nat → Bytes) (ct : Bytes) (sz : Sizes) (S : Setup E cfg prm ser encode ct sz)
@@ -283,6 +356,40 @@ example :
     (stageBlockHashes C02.exE Cfg.asIs (fun _ => 0) 0 1 (C02.exHonest 0) nd).1 = none ∧
     (stageBlockHashes C02.exE Cfg.asIs (fun _ => 0) 0 1 { C02.exHonest 0 with blockHashes := fun _ => none } nd).1
       = some .wait := by decide
+
+/-- non-vacuity of `repaired_share_passes_share_hash_stage` (3 shares, so the chain of share 1 has two uncles): on a
+    node that holds only the share hash root, the chain `[2, 3, 4]` of published nodes meets the hypotheses — every
+    entry is a published node on the uncle chain or the leaf, the chain is covered, the leaf is present — and the
+    stage accepts; a chain with one node replaced is rejected, an empty chain makes the stage wait -/
+example :
+    let T := build symOpsH [SymH.raw 10, SymH.raw 11, SymH.raw 12]
+    let cap : Cap SymH := { (upload C02.exE C02.exPrm C02.exEncode C02.exSer C02.exCt).cap with n := 3 }
+    let nd : Node SymH := { Node.init SymH cap with shareTree := seed (newTree SymH 3) ((Base.Merkle.get T 0).getD (SymH.raw 0)) }
+    let L := firstLeafNum 3 + 1
+    let chain := [2, 3, 4].filterMap (fun i => (Base.Merkle.get T i).map (fun h => (i, h)))
+    let d := dictOf chain
+    nd.shareTree.length = T.length ∧ d.length = 3 ∧ neededFor L = [3, 2] ∧
+    d.all (fun e => decide (Base.Merkle.get T e.1 = some e.2) && (decide (e.1 ∈ neededFor L) || decide (e.1 = L))) = true ∧
+    (neededFor L).all (fun i => d.any (fun e => decide (e.1 = i))) = true ∧ d.any (fun e => decide (e.1 = L)) = true ∧
+    (stageShareTree C02.exE Cfg.asIs (fun _ => 0) cap 1 { C02.exHonest 0 with shareHashes := chain } nd).1 = none ∧
+    (stageShareTree C02.exE Cfg.asIs (fun _ => 0) cap 1
+      { C02.exHonest 0 with shareHashes := (2, SymH.raw 99) :: chain.drop 1 } nd).1 = some (.dead .badHash) ∧
+    (stageShareTree C02.exE Cfg.asIs (fun _ => 0) cap 1 { C02.exHonest 0 with shareHashes := [] } nd).1
+      = some .wait := by decide
+
+/-- non-vacuity of `repaired_share_block_accepted`: after the honest fetch of segment 0 from share 0 the node holds
+    the uncle chain of segment 1 of that share, and the stage hands over exactly the published block of segment 1;
+    a block with one byte flipped is reported corrupt -/
+example :
+    let cap := (upload C02.exE C02.exPrm C02.exEncode C02.exSer C02.exCt).cap
+    let dec : Nat → List (Nat × Bytes) → Bytes := fun _ bl => (bl.head?.map (·.2)).getD []
+    let nd := C02.nodeAfter C02.exE Cfg.asIs (fun _ => 0) dec cap [(0, [(0, C02.exHonest 0)])]
+    nd.known.isSome ∧
+    (neededFor (firstLeafNum 2 + 1)).all (fun i => (Base.Merkle.get (nd.blockTree 0 2) i).isSome) = true ∧
+    (stageData C02.exE Cfg.asIs (fun _ => 0) 0 1 (C02.exHonest 1) nd).1
+      = some (.block ((upload C02.exE C02.exPrm C02.exEncode C02.exSer C02.exCt).block 0 1)) ∧
+    (stageData C02.exE Cfg.asIs (fun _ => 0) 0 1
+      { C02.exHonest 1 with block := (C02.exHonest 1).block.map (· + 1) } nd).1 = some .corrupt := by decide
 
 /-- the regenerated share of the example verifies good under the original cap (both verifiers) -/
 example :
